@@ -192,10 +192,20 @@ func vpH_c03_command() {
 func vpH_c03_plugins() {
 	step := vpMapOf("command", "c")
 	src1, src2 := "a"+vpStrUpTo(1, "a-c"), "b"+vpStrUpTo(1, "a-c")+"#v1"
-	cfgKind := vpInt(0, 3)
+	cfgKind := vpInt(0, 8)
 	var cfg any
 	cv := vpStrUpTo(1, "x-z")
 	switch cfgKind {
+	case 4: // scalar configs are values like any other: they come out unchanged, falsy or not
+		cfg = false
+	case 5:
+		cfg = 0
+	case 6:
+		cfg = ""
+	case 7:
+		cfg = true
+	case 8:
+		cfg = []any{false, 0, ""}
 	case 1:
 		cfg = ordered.NewMap[string, any](0) // {} -> null
 	case 2:
